@@ -4,7 +4,7 @@
 set -u
 D=$(readlink -f "$1"); NAME=$(basename "$D")
 WT=/tmp/mut/confirm-$NAME
-export RUSTUP_TOOLCHAIN=stable-x86_64-unknown-linux-gnu CARGO_NET_OFFLINE=true CARGO_TARGET_DIR=/tmp/mut/target-confirm
+export RUSTUP_TOOLCHAIN=stable-x86_64-unknown-linux-gnu CARGO_NET_OFFLINE=true CARGO_TARGET_DIR=/tmp/mut/target-confirm-$NAME
 git -C /repo worktree add -q --detach "$WT" HEAD || exit 2
 cd "$WT"
 # demo files: *.rs go to the tests/ directory of the crate named in the README (default crux_core)
@@ -24,3 +24,4 @@ PASSED=$(grep -h "^test result" /tmp/mut/confirm-$NAME-suite.log | awk '{s+=$4} 
 FAILED=$(grep -h "^test result" /tmp/mut/confirm-$NAME-suite.log | awk '{s+=$6} END{print s}')
 echo "[$NAME] demo_at_base_exit=$BASE demo_with_patch_exit=$MUT suite_exit=$SUITE suite_passed=$PASSED suite_failed=$FAILED"
 cd /; git -C /repo worktree remove --force "$WT"
+rm -rf "/tmp/mut/target-confirm-$NAME"
